@@ -340,6 +340,9 @@ func (c *fctx) unary(t *ast.UnaryExpr) string {
 		if _, ok := t.X.(*ast.CompositeLit); ok && c.x.kindOf(c.typeOf(t)) == kPtrStruct {
 			return c.expr(t.X)
 		}
+		if id, ok := t.X.(*ast.Ident); ok && c.x.kindOf(c.typeOf(t)) == kPtrStruct && !c.isOptVar(id) { // &x read by the callee
+			return c.expr(id)
+		}
 		if _, ok := t.X.(*ast.CompositeLit); ok && c.x.kindOf(c.typeOf(t)) == kHeapPtr { // &client{...}: a new record
 			c.useHeap()
 			return "(← Go.heapAlloc " + c.expr(t.X) + ")"
@@ -472,6 +475,19 @@ func (c *fctx) binary(t *ast.BinaryExpr) string {
 	return ""
 }
 
+func fieldByName(t types.Type, name string) *types.Var {
+	st, ok := t.Underlying().(*types.Struct)
+	if !ok {
+		return nil
+	}
+	for i := 0; i < st.NumFields(); i++ {
+		if st.Field(i).Name() == name {
+			return st.Field(i)
+		}
+	}
+	return nil
+}
+
 func isNil(e ast.Expr) bool {
 	id, ok := e.(*ast.Ident)
 	return ok && id.Name == "nil"
@@ -498,6 +514,9 @@ func (c *fctx) composite(t *ast.CompositeLit, ty types.Type) string {
 			kv, ok := el.(*ast.KeyValueExpr)
 			if !ok {
 				bad("positional struct literal at %s", c.site(t.Pos()))
+			}
+			if fld := fieldByName(ty, kv.Key.(*ast.Ident).Name); fld != nil && c.x.fieldKind(fld.Type()) == kOther {
+				continue // a field the translation does not represent (context, logger, pointer to another layer's state)
 			}
 			parts = append(parts, leanIdent(kv.Key.(*ast.Ident).Name)+" := "+c.expr(kv.Value))
 		}
